@@ -16,7 +16,7 @@ def run(run):
     C.build_driver()
     h, d = C.Harness(), C.Driver()
     rng = run.rng
-    quick = run.tier == "quick"
+    quick = run.depth == "quick"
     nproj = 2 if quick else 6
     nq = 80 if quick else 600
     nlay = 4 if quick else 10
